@@ -2,7 +2,7 @@
 C11 — a byte stream is split into exactly the messages it contains.
 
 Theorems: lean/BufrModel/Props/C11.lean (over an abstract per-offset decoder with the frame property;
-the section model has it: C12_ofSections_frame).
+the section model has it: C12_ofSections_frame; the filter is an arbitrary predicate).
 Tie: streams of 0..8 generated messages (editions 2-4, compressed or not, 1-3 subsets, optional section 2,
 character payloads and local bits carrying `BUFR` / `7777` byte aligned) and corpus files, joined by
 separators {empty, GTS-like headings, noise without the signature, `BUF`, `BU`, `B`, noise ending in a
@@ -45,12 +45,22 @@ META = dict(
     text='Kernel-checked theorems about the Lean model of generate_bufr_message (signature search, decode at the offset, '
          'advance by decoded / declared length, filter on the metadata-only decode, unmatched branch, error branch) for ALL '
          'streams sep0 m1 sep1 .. mk sepk of valid messages and signature-free separators, any per-offset decoder with the '
-         'frame property (proved for the section model), both modes, with and without filter: exactly the messages, at their '
-         'offsets, with their bytes; inner signatures ignored; concatenation of the pieces = the messages; fuel never runs out. '
-         'Plus model-vs-implementation correspondence and the oracle on generated and corpus streams, command_split and the CLI.',
+         'frame property (proved for the section model), both modes, with and without filter (an arbitrary predicate): exactly '
+         'the messages, at their offsets, with their bytes; inner signatures ignored; concatenation of the pieces = the messages; '
+         'a rejected message advances by exactly its length when only metadata is read and never beyond it in either mode, and '
+         'the message after it is found for any separator including the empty one; fuel never runs out. '
+         'Plus model-vs-implementation correspondence and the oracle on generated and corpus streams, command_split and the CLI: '
+         'random streams; the systematic product mode x continue-on-error x every kept/rejected pattern of up to 5 messages x '
+         'separator after each message (empty, 1-5 bytes, BUF, BU, B, 7777, CR CR LF, GTS heading, noise); filter expressions over '
+         'every metadata parameter name of every section layout, bare and section-qualified, compared with values occurring in the '
+         'stream including 0 / False / empty (== != < <= > >= not in is-None containment, and/or combinations), expected selection '
+         'from the expression evaluated directly on the parameter values of a fresh full decode of each piece.',
     technique='Lean 4 theorems (induction over the list of pieces, no-border lemma for BUFR) + checked model/implementation correspondence',
-    note='The filter expression language (Python eval) is abstracted to a predicate on the metadata-only decoding; the '
-         'table-definition side effect of category-11 messages is C20\'s and is not exercised here. Quirk mirrored and documented: '
+    note='In the theorems the filter is an arbitrary predicate on the metadata-only decoding; the checked correspondence evaluates a '
+         'modelled fragment of Python expressions (Lang/FilterExpr.lean: comparison, not, and/or, in, is None over None/int/bool/str/'
+         'bytes/list). The filter sees the metadata-only decode: template_data and section 5 (stop_signature) are not in it '
+         '(%stop_signature is None there); such expressions are compared model-vs-implementation only. The table-definition side '
+         'effect of category-11 messages is C20\'s and is not exercised here. Quirk mirrored and documented: '
          'info-only scanning of a message whose declared total length is 0 never terminates (model outcome `loops`).',
 )
 
